@@ -53,8 +53,8 @@ ASSUMPTIONS = [
 ]
 TOLERANCES = {
     "lnprior-closed-form": 1e-12,
-    "lnprior-sum": "4 ulp",
-    "posterior-sum": "2 ulp",
+    "lnprior-sum": "64 eps * sum|terms| (order of summation is free)",
+    "posterior-sum": "32 eps * (|lnprior| + |lnlike|)",
     "lnlike-formula": 1e-11,
     "forward-bits": "bit-identical",
     "wrapper": "bit-identical (same call, sign flipped)",
@@ -64,6 +64,7 @@ TIMEOUT = 600
 EXHAUSTIVE = False
 
 NEG_INF = float("-inf")
+EPS = 2.0 ** -52
 NMED, WL, POL = 1.33, 0.66, (1, 0)
 WL2 = {"red": 0.66, "green": 0.52}
 CH = ["red", "green"]
@@ -145,6 +146,13 @@ DATAS = ["grid", "subset", "noisy", "noisy-subset"]
 CFG_AXES = {"kind": KINDS, "noise": NOISES, "optics": OPTICS,
             "priors": PATTERNS, "data": DATAS}
 ALL_PATTERNS = ["".join(p) for p in itertools.product("UGB", repeat=4)]
+# quick tier: 2-deviation configurations only over these reduced alphabets
+QUICK_PAIR = {"kind": ["alpha-prior", "exact", "two-0.1", "two-0", "lens"],
+              "noise": ["model", "data", "both", "none", "model-ch",
+                        "data-ch"],
+              "optics": ["model", "data", "both"],
+              "priors": ["UUUU", "GUUU", "UBUU", "GGGG"],
+              "data": ["grid", "subset", "noisy"]}
 
 
 def cfg_id(cfg):
@@ -210,6 +218,8 @@ def cases(tier, seed):
         else:
             D = 2 if ndev == 0 else 1
             lite = ndev == 2
+            if lite and any(cfg[k] not in QUICK_PAIR[k] for k in cfg):
+                continue
         out.append({"id": "cfg:%s:D=%d%s" % (cfg_id(cfg), D,
                                               ":lite" if lite else ""),
                     "kind": "cfg", "cfg": cfg, "D": D, "block": None,
@@ -611,10 +621,11 @@ def check_vector(c, ck, vec, tag, acc=None, lite=False):
         tot = 0
         for t in own:
             tot = tot + t
-        e = ulp_diff(lp, tot)
-        ck.metric("lnprior-sum-ulp", e)
-        ck.true("lnprior-sum", e <= 4, "lnprior %r differs from the sum of "
-                "the priors' own lnprob %r by %.3g ulp (%s)" %
+        unit = EPS * max(math.fsum(abs(t) for t in own), abs(lp), 1e-300)
+        e = abs(lp - math.fsum(own)) / unit
+        ck.metric("lnprior-sum-eps", e)
+        ck.true("lnprior-sum", e <= 64, "lnprior %r differs from the sum of "
+                "the priors' own lnprob %r by %.3g eps*sum|terms| (%s)" %
                 (lp, tot, e, what))
         cf = [t if t is not None else o for t, o in zip(terms, own)]
         ref = math.fsum(cf)
@@ -690,10 +701,14 @@ def check_vector(c, ck, vec, tag, acc=None, lite=False):
         return
     if ll is not None:
         s = lp + ll
-        e = ulp_diff(post, s)
-        ck.metric("posterior-sum-ulp", e)
-        ck.true("posterior-sum", e <= 2, "lnposterior %r != lnprior %r + "
-                "lnlike %r = %r (%.3g ulp) (%s)" % (post, lp, ll, s, e, what))
+        if math.isinf(s) or math.isinf(post):
+            e = 0.0 if s == post else float("inf")
+        else:
+            e = abs(post - s) / (EPS * max(abs(lp) + abs(ll), 1e-300))
+        ck.metric("posterior-sum-eps", e)
+        ck.true("posterior-sum", e <= 32, "lnposterior %r != lnprior %r + "
+                "lnlike %r = %r (%.3g eps*(|lnprior|+|lnlike|)) (%s)" %
+                (post, lp, ll, s, e, what))
     if acc is not None:
         acc.append(repr(post))
 
